@@ -599,6 +599,23 @@ func checkC01(c *Ctx) {
 	// (f) a text operand is the text its variable was given: reading it as a number (转换数值, in a
 	// statement before or in an operand of the same expression) does not change what it compares
 	// equal to (hand-written, expected values written down)
+	// literals written with hundreds of digits (their value brought back into range by the exponent)
+	// in every documented exponent spelling, as operands: the value is the decimal's nearest double
+	{
+		hc := []handCase{}
+		for _, n := range []int{300, 699, 700, 701, 750, 1200} {
+			z := strings.Repeat("0", n)
+			for _, sp := range []string{"E", "e", "*10^", "*^"} {
+				hc = append(hc,
+					handCase{fmt.Sprintf("long-literal/int/%d/%s", n, sp), "输出 1" + z + sp + fmt.Sprintf("-%d", n) + " * 6 + 1\n", "num(7)"},
+					handCase{fmt.Sprintf("long-literal/frac/%d/%s", n, sp), "输出 0." + z + "4" + sp + fmt.Sprintf("+%d", n+1) + " == 4\n", "bool(true)"},
+					handCase{fmt.Sprintf("long-literal/divisor/%d/%s", n, sp), "输出 10 / 2" + z + sp + fmt.Sprintf("-%d", n) + "\n", "num(5)"},
+					handCase{fmt.Sprintf("long-literal/negative/%d/%s", n, sp), "输出 -25" + z + sp + fmt.Sprintf("-%d", n+1) + " + 3\n", "num(0.5)"},
+				)
+			}
+		}
+		c.runHand("long-literals", hc)
+	}
 	c.runHand("text-operand", []handCase{
 		{"compared-after-conversion", "令丁 = “5*10^2”\n令数 = 以丁（转换数值）\n输出【丁 为 “5*10^2”，丁 == “5*10^2”，丁 不为 “5*10^2”，数】\n", "list[bool(true),bool(true),bool(false),num(500)]"},
 		{"compared-inside-one-expression", "令丁 = “1*^3”\n输出 丁 为 “1*^3” 且 以丁（转换数值） == 1000 且 丁 为 “1*^3”\n", "bool(true)"},
